@@ -260,8 +260,13 @@ def run(R, tier):
     feng = fdai.Engine(P, u, inline=lambda n, r: r.startswith(("scpi::error::", "<scpi::error::", "<error::", "scpi::parser::response::")) or ("parser::response::Formatter" in r and "ArrayVec" in r), models=ms, loop_limit=16, max_paths=64)
     n_f = 0
     n_err_total = 0
-    for fb in u.bodies:
-        if "parser::response::Formatter" not in (fb.impl_trait or "") or "ArrayVec" not in (fb.impl_self or "") or not str(fb.mir.locals[0].get("ty", "")).startswith("core::result::Result<"):
+    fmethods = u.trait_methods_for("parser::response::Formatter", "arrayvec::ArrayVec")
+    # calls a provided method makes on `self` go to this formatter's own methods
+    for nm_, fb_ in fmethods.items():
+        if not fb_.in_trait:
+            feng.redirect["scpi::parser::response::Formatter::" + nm_] = fb_
+    for fb in fmethods.values():
+        if not str(fb.mir.locals[0].get("ty", "")).startswith("core::result::Result<"):
             continue
         n_f += 1
         bad = []
